@@ -169,10 +169,18 @@ def compare(d, order, pv, point, m, numeric=True):
                      ("F", m.transitionJacobian), ("MU", m.transitionMean), ("SG", m.transitionVar)):
             if not ind[k]:
                 continue
-            got = np.asarray(f(x, t), float).ravel()
+            r1 = f(x, t)
+            got = np.array(np.asarray(r1, float).ravel())
             want = np.array([float(v) for v in ind[k]])
             if got.shape != want.shape or not np.all(np.abs(got - want) <= 1e-8 * (1 + np.abs(want))):
                 return ("numeric-" + NAMES[k], "%s(x,t) = %s but the true values are %s" % (NAMES[k], got.tolist()[:6], want.tolist()[:6]))
+            # a value handed out stays what it was: evaluating at another point must not change it (tabulating Jacobians,
+            # differences J(x+h) - J(x))
+            f(x * 1.25 + 0.5, t + 0.75)
+            again = np.asarray(r1, float).ravel()
+            if again.shape != got.shape or not np.array_equal(again, got):
+                return ("numeric-" + NAMES[k] + "-overwritten", "the array returned by %s(x,t) changed from %s to %s when %s was "
+                        "evaluated at another point" % (NAMES[k], got.tolist()[:6], again.tolist()[:6], NAMES[k]))
     return None
 
 
